@@ -6,8 +6,21 @@ import fol
 import streams
 from common import sub_seed
 
-THEOREMS = ["LNN.C14_get_missing", "LNN.C14_query_pure", "LNN.C14_addg_new_row", "LNN.C14_addg_keeps",
-            "LNN.C14_groundings_only_world", "LNN.C14_axiom_stays"]
+THEOREMS = ["LNN.C14_get_missing",
+            "LNN.C14_query_pure",
+            "LNN.C14_addg_new_row",
+            "LNN.C14_addg_keeps",
+            "LNN.C14_groundings_only_world",
+            "LNN.C14_axiom_stays",
+            "LNN.C14_get_present",
+            "LNN.C14_addg_keys",
+            "LNN.C14_addg_only_world",
+            "LNN.C14_addg_read_unchanged",
+            "LNN.C14_groundings_read_unchanged",
+            "LNN.C14_axiom_start",
+            "LNN.C14_closed_stays",
+            "LNN.C14_axiom_invariant",
+            "LNN.C14_query_unknown"]
 MODULES = ["LnnVerif.Props.C14"]
 
 
